@@ -152,10 +152,12 @@ def rule_F(ck, lib):
     # floats: decision table, evaluated per float class (so that any arrangement of the tests - is_nan / is_infinite /
     # is_finite / is_sign_negative, nested ifs, early returns, a match on a tuple of them - is read the same way)
     classes = {
-        "nan": {"is_nan": True, "is_infinite": False, "is_finite": False, "is_normal": False},
-        "+inf": {"is_nan": False, "is_infinite": True, "is_finite": False, "is_sign_negative": False, "is_sign_positive": True, "is_normal": False},
-        "-inf": {"is_nan": False, "is_infinite": True, "is_finite": False, "is_sign_negative": True, "is_sign_positive": False, "is_normal": False},
-        "finite": {"is_nan": False, "is_infinite": False, "is_finite": True},
+        "nan": {"is_nan": True, "is_infinite": False, "is_finite": False, "is_normal": False, "==INFINITY": False, "==NEG_INFINITY": False, "==NAN": False},
+        "+inf": {"is_nan": False, "is_infinite": True, "is_finite": False, "is_sign_negative": False, "is_sign_positive": True, "is_normal": False,
+                 "==INFINITY": True, "==NEG_INFINITY": False, "==NAN": False},
+        "-inf": {"is_nan": False, "is_infinite": True, "is_finite": False, "is_sign_negative": True, "is_sign_positive": False, "is_normal": False,
+                 "==INFINITY": False, "==NEG_INFINITY": True, "==NAN": False},
+        "finite": {"is_nan": False, "is_infinite": False, "is_finite": True, "==INFINITY": False, "==NEG_INFINITY": False, "==NAN": False},
     }
     want = {"nan": {"9.91E+37"}, "+inf": {"9.9E+37"}, "-inf": {"-9.9E+37"}, "finite": {"{}"}}
     tables = {}
@@ -170,6 +172,11 @@ def rule_F(ck, lib):
             for c in x.conds:
                 if c[0] == "true" and c[1][0] == "call" and c[1][2] == (SELF,):
                     atoms[c[1][1].split("::")[-1]] = c[2]
+                elif c[0] == "true" and c[1][0] == "bin" and c[1][1] in ("Eq", "Ne") and SELF in (c[1][2], c[1][3]) and \
+                        [o_ for o_ in (c[1][2], c[1][3]) if o_[0] == "const" and o_[1].split("::")[-1] in ("INFINITY", "NEG_INFINITY", "NAN")]:
+                    # a comparison with one of the float constants: true for exactly one class (never for NaN)
+                    k_ = [o_ for o_ in (c[1][2], c[1][3]) if o_[0] == "const"][0][1].split("::")[-1]
+                    atoms["==" + k_] = c[2] if c[1][1] == "Eq" else (not c[2])
                 elif c[0] == "true":
                     unknown.append(show_term(c[1]))
             tr = trace(x)
@@ -205,15 +212,23 @@ def rule_F(ck, lib):
                         pos = not c[2]
                 if c[0] == "true" and c[1][0] == "call" and c[1][1].endswith("::is_empty") and c[1][2] == (data,):
                     pos = not c[2]
+                # len.checked_ilog10() is Some exactly for len > 0
+                if c[0] == "is" and c[2] == SOME and c[1][0] == "call" and c[1][1].endswith("::checked_ilog10") and strip_sites(c[1][2]) == (("call", "core::slice::len", (data,)),):
+                    pos = c[3]
             if pos:
                 n_ok += 1
                 ok = len(tr) == 2 and tr[0][0] == "write_fmt" and tr[1][0] == "write_bytes" and tr[1][1] == data
                 if ok:
                     pc = fmtdec.decode(tr[0][1])
                     ln = ("call", "core::slice::len", (data,))
+                    def is_log(t_):
+                        # ilog10(len) or the Some-payload of checked_ilog10(len)
+                        if t_[0] == "call" and t_[1].endswith("::ilog10") and t_[2] == (ln,):
+                            return True
+                        return t_[0] == "payload" and t_[2] == SOME and t_[1][0] == "call" and t_[1][1].endswith("::checked_ilog10") and t_[1][2] == (ln,)
                     ok = pc is not None and len(pc) == 3 and pc[0] == ("lit", b"#") and pc[1][0] == "arg" and pc[2][0] == "arg" and not pc[1][4] and not pc[2][4] \
                         and strip_sites(pc[2][3]) == ln and strip_sites(pc[1][3])[0] == "bin" and strip_sites(pc[1][3])[1] == "Add" \
-                        and strip_sites(pc[1][3])[2][0] == "call" and strip_sites(pc[1][3])[2][1].endswith("::ilog10") and strip_sites(pc[1][3])[2][2] == (ln,) and strip_sites(pc[1][3])[3] == ("lit", "int", 1)
+                        and is_log(strip_sites(pc[1][3])[2]) and strip_sites(pc[1][3])[3] == ("lit", "int", 1)
                 ck.judge(ok, "C04-F", "arbitrary:block", "#<ilog10(len)+1><len> then the raw bytes", "non-empty block response is %s" % [(o, show_term(d)) for o, d, _ in tr])
                 # the header write is ?-propagated before the payload
                 ck.judge(any(c[0] == "is" and c[2] == OK and c[3] and c[1][0] == "call" and c[1][1] == W + "write_fmt" for c in x.conds), "C04-F", "arbitrary:header-checked",
@@ -268,7 +283,11 @@ def rule_F(ck, lib):
                 ok = False
                 why.append("body(%s) writes %s" % ("first" if first else "later", [(o, show_term(d)) for o, d in tr]))
         done = [x for x in ex if success(x)]
-        ck.judge(ok and n_body == 2 and len(done) == 1, "C04-F", "list:%s" % ty, "',' before every element but the first, elements of self in order", "list response: %s" % (why or "unexpected shape"))
+        verdict = ok and n_body == 2 and len(done) == 1
+        alt = None
+        if not verdict:
+            alt = list_alt_form(ex, ty)
+        ck.judge(verdict or bool(alt), "C04-F", "list:%s" % ty, alt or "',' before every element but the first, elements of self in order", "list response: %s" % (why or "unexpected shape"))
     # Error
     ex, ps = summ(ck, lib, resp("microscpi::error::Error"), "C04-F")
     if ex:
@@ -278,6 +297,54 @@ def rule_F(ck, lib):
             a, b = tr[0][1][1]
             ok = a[0] == "call" and a[1] == "microscpi::error::Error::number" and a[2] == (SELF,) and b[0] == "call" and b[1].endswith("::into") and b[2] == (SELF,)
         ck.judge(ok, "C04-F", "error:number-text", "Error -> (number, text)", "Error response is %s" % [(o, show_term(d)) for o, d, _ in tr])
+
+
+def list_alt_form(ex, ty):
+    """Two more ways to write a list response:
+    (a) delegation - the impl hands `self`, seen through a borrowing view, to the write_response of the slice impl and does
+        nothing else;
+    (b) first-then-rest - nothing for an empty list; otherwise the first element, then ',' + element for every element of
+        the rest (`[first, rest @ ..]`, `split_first()`)."""
+    succ = [x for x in ex if success(x)]
+    trs = [[(o, d) for o, d, _ in trace(x)] for x in succ]
+    if len(succ) == 1 and len(trs[0]) == 1 and trs[0][0][0] == "write_response" and from_self(trs[0][0][1]) and not [x for x in ex if x.kind == "backedge"]:
+        return "delegates to the slice impl: write_response(self as a slice)"
+    # (b)
+    back = [x for x in ex if x.kind == "backedge"]
+    if len(back) != 1:
+        return None
+    rest_src = None
+    tb = [(o, d) for o, d, _ in trace(back[0])]
+    # after the loop head: ',' then the item
+    after = [(e[1][len(W):], e[2][1] if len(e[2]) > 1 else None) for e in back[0].after_head() if e[0] == "call" and e[1].startswith(W)]
+    items = [e for e in back[0].after_head() if e[0] == "call" and is_wr(e[1])]
+    if after != [("write_char", ("lit", "char", 44))] or len(items) != 1:
+        return None
+    it = strip_sites(items[0][2][0])
+    if it[0] != "iter_item":
+        return None
+    src = it[1]
+    while src[0] == "call" and src[1].split("::")[-1] in ("iter", "into_iter") and src[2]:
+        src = src[2][0]
+    # rest = self[1..] (through a view)
+    if not (src[0] == "index" and from_self(src[1]) and src[2][0] == "struct" and src[2][1].endswith("RangeFrom") and dict(src[2][2]).get("start") == ("lit", "int", 1)):
+        return None
+    # before the loop: exactly the first element
+    pre = []
+    for e in back[0].effects:
+        if e[0] == "loop_head":
+            break
+        if e[0] == "call" and is_wr(e[1]):
+            pre.append(strip_sites(e[2][0]))
+        elif e[0] == "call" and e[1].startswith(W):
+            return None
+    if len(pre) != 1 or not (pre[0][0] == "index" and from_self(pre[0][1]) and pre[0][2] == ("lit", "int", 0)):
+        return None
+    # the empty list writes nothing
+    empties = [x for x in succ if not trace(x)]
+    if not empties or not all(any(c[0] == "empty" and c[2] is True and from_self(c[1]) for c in x.conds) for x in empties):
+        return None
+    return "first element, then ',' + element for each of self[1..]; nothing for an empty list"
 
 
 def rule_Q(ck, lib, tag=""):
@@ -334,8 +401,70 @@ def rule_Q(ck, lib, tag=""):
                 n_seg += 1
         if n_seg == 0 and not problems:
             problems.append("no path writes the text as segments between quotes")
+        if problems:
+            alt = quote_split_once_form(ex, ps)
+            if alt:
+                ck.ok("C04-Q", tag + "quoting:%s" % r.split(" as ")[0].strip("<"), alt)
+                continue
         ck.judge(not problems, "C04-Q", tag + "quoting:%s" % r.split(" as ")[0].strip("<"), "'\"' + segments of split('\"') joined by '\"\"' + '\"'",
                  "; ".join(sorted(set(problems))[:4]), data=[pathsum.show_exit(x)[:600] for x in ex][:6])
+
+
+def quote_split_once_form(ex, ps):
+    """The other way to double the quotes: `'"'; rest = text; while let Some((before, after)) = rest.split_once('"')
+    { write before; write '""'; rest = after }; write rest; '"'`.  Loop invariant: what has been written is the opening
+    quote followed by the consumed part of the text with every quote doubled. -> description, or None."""
+    if len(ps.loops) != 1:
+        return None
+    (site, info), = ps.loops.items()
+    if len(info["vars"]) != 1:
+        return None
+    (rid, rname), = info["vars"].items()
+    R = ("loopvar", rid, rname, site)
+    if not info["entry"] or not all(from_self(st.env.get(rid) or ("?",)) for st in info["entry"]):
+        return None
+
+    def is_quote(t):
+        return t == ("lit", "char", 34) or t == ("lit", "str", "\"")
+
+    def so_of(x):
+        for c in x.conds:
+            t = strip_sites(c[1]) if c[0] == "is" else None
+            if c[0] == "is" and c[2] == SOME and t[0] == "call" and t[1].split("::")[-1] == "split_once" and len(t[2]) == 2 and t[2][0] == R and is_quote(t[2][1]):
+                return t, c[3]
+        return None, None
+
+    def writes(effs):
+        return [(e[1][len(W):], strip_sites(e[2][1]) if len(e[2]) > 1 else None) for e in effs if e[0] == "call" and e[1].startswith(W) and e[1][len(W):] != "flush"]
+    n_back = n_done = 0
+    for x in ex:
+        pre = []
+        for e in x.effects:
+            if e[0] == "loop_head":
+                break
+            pre.append(e)
+        has_head = any(e[0] == "loop_head" for e in x.effects)
+        if not has_head:
+            if success(x):
+                return None           # a success path that never reaches the loop
+            continue
+        wpre = writes(pre)
+        if wpre != [("write_char", ("lit", "char", 34))] and wpre != [("write_str", ("lit", "str", "\""))]:
+            return None
+        so, found = so_of(x)
+        after = writes(x.after_head(site))
+        if x.kind == "backedge":
+            n_back += 1
+            pl = ("payload", so, SOME, 0) if so else None
+            if not (found is True and after == [("write_str", ("tproj", pl, 0)), ("write_str", ("lit", "str", "\"\""))] and strip_sites(x.env.get(rid)) == ("tproj", pl, 1)):
+                return None
+        elif success(x) or (x.kind == "return" and x.value is not None and x.value[0] == "call" and x.value[1].startswith(W)):
+            n_done += 1
+            if not (found is False and after[:1] == [("write_str", R)] and after[1:] in ([("write_char", ("lit", "char", 34))], [("write_str", ("lit", "str", "\""))])):
+                return None
+    if n_back == 1 and n_done >= 1:
+        return "'\"' + (segment before the next quote + '\"\"')* + rest + '\"'  (split_once loop; invariant: written = quote + consumed text with quotes doubled)"
+    return None
 
 
 def classify(d, op, payload):
@@ -502,7 +631,10 @@ def rule_W(ck, lib, tag=""):
         apps = [c for c in calls if c[1].split("::")[-1] in ("extend_from_slice", "push", "write_fmt", "push_str") and w_method(c[1]) is None]
         dels = [c for c in calls if w_method(c[1]) in ("write_bytes", "write_str", "write_char") and c[2] and c[2][0] == ("param", b["params"][0].get("name"))]
         if len(apps) == 1 and not dels:
-            return apps[0][2][1], apps[0], None
+            d_ = apps[0][2][1]
+            if d_[0] == "array" and len(d_[1]) == 1:
+                d_ = d_[1][0]          # extend_from_slice(&[x]) appends x
+            return d_, apps[0], None
         if not apps and len(dels) == 1 and depth < 3:
             m2 = w_method(dels[0][1])
             b2 = by_impl.get((b["self_ty"], m2))
